@@ -851,7 +851,7 @@ SELFTEST = [
     {"name": "twin: eval wrapper name generated once per call", "file": COMPILER, "expect": None,
      "edits": [
          {"file": COMPILER, "old": "        final_wrapped_name = genname(wrapped_fn_name)\n", "new": ""},
-         {"file": COMPILER, "old": "    last = _sentinel\n    for unrolled_form in _flatmap_forms([form]):\n", "new": "    last = _sentinel\n    final_wrapped_name = genname(wrapped_fn_name)\n    for unrolled_form in _flatmap_forms([form]):\n"},
+         {"file": COMPILER, "old": "    last = _sentinel\n    for unrolled_form in unrolled_forms:\n", "new": "    last = _sentinel\n    final_wrapped_name = genname(wrapped_fn_name)\n    for unrolled_form in unrolled_forms:\n"},
      ]},
     {"name": "chain without hoisting (the repaired defect)", "file": GEN, "expect": "C02.R1",
      "old": "        if i < last_with_deps and not isinstance(n.node, ast.Constant):", "new": "        if False:"},
